@@ -10,7 +10,7 @@ set -u
 P=$1; N=$2; SRC=$3; shift 3
 CHECKS=${@:-$P}
 D=/verif/seeded/$P-$N
-WT=/tmp/seedwt_${P}_$N
+WT=/tmp/seedwt_$(echo ${P}x$N | tr "0-9" "a-j")
 mkdir -p $D
 cp $SRC/$N/patch.diff $D/patch.diff; cp $SRC/$N/demo.py $D/demo.py; cp $SRC/$N/meta.json $D/agent_meta.json 2>/dev/null
 git -C /repo worktree remove --force $WT >/dev/null 2>&1
